@@ -387,6 +387,54 @@ theorem fill_rule_one_sided (col : List Cell) (i : Nat) :
   · intro p hp hq; simp [fillAt, hp, hq]
   · intro q hp hq; simp [fillAt, hp, hq]
 
+/-! ## 5b'. Every date collection the API accepts: stepped, backward, unordered lists -/
+
+/-- **writing per-variant columns over any list of distinct periods** (what `set_data(dates, ndarray | list of columns)` does
+after `resolve_periods`, e.g. for `Span(a, b, -2)` or an unordered tuple): the `i`-th listed period reads the `i`-th value of
+the variant's column, every other cell is unchanged. (With repeated periods the general `write_refines_map` applies: the
+writes happen in list order and the last one wins.) -/
+theorem write_columns_distinct_periods (nv : Nat) (serials : List Int) (hnd : serials.Nodup) (data : DataArg)
+    (colf : Nat → List Cell)
+    (hcol : ∀ k, k < nv → (data.variant k).values serials.length = some (colf k) ∧ (colf k).length = serials.length)
+    (m : Map) :
+    ∃ m', Map.writeAll m nv serials data ((List.range' 0 nv).map (fun (i : Nat) => (i : Int))) 0 = some m' ∧
+      (∀ (i : Nat) (t : Int) (v : Nat), serials[i]? = some t → v < nv → m' t v = ((colf v)[i]?).getD none) ∧
+      (∀ t v, (t ∉ serials ∨ ¬ v < nv) → m' t v = m t v) := by
+  obtain ⟨m', h1, h2, h3⟩ := writeAll_nodup nv serials hnd data colf hcol nv 0 m (by omega)
+  exact ⟨m', h1, fun i t v hi hv => h2 i t v hi (by omega) hv, fun t v hc => h3 t v (by
+    rcases hc with hc | hc
+    · exact Or.inl hc
+    · exact Or.inr (fun hh => hc hh.2))⟩
+
+/-- **fill_missing over any list of distinct periods** (stepped, backward, unordered): the column the method sees is the
+read in list order; a period outside the list is untouched; the `i`-th listed period keeps an observed cell and otherwise
+receives `fillAt` at position `i` of that column (so "next"/"previous" mean next/previous *in the list*, as in the code) -/
+theorem fill_missing_pointwise_list (s r : Series) (m : FillMethod) (serials : List Int) (hnd : serials.Nodup)
+    (hne : serials ≠ []) (hI : Inv s) (st : Int) (hs : s.start = some st)
+    (h : s.fillMissingP m (serials.map (fun x => (⟨s.freq, x⟩ : Period))) = .ok r) :
+    (∀ t v, t ∉ serials → r.abs t v = s.abs t v) ∧
+    (∀ (i : Nat) (t : Int) (v : Nat), serials[i]? = some t → v < s.nv →
+      r.abs t v = match s.abs t v with
+        | some x => some x
+        | none => fillAt m (serials.map (fun u => s.abs u v)) i) :=
+  abs_fillMissing_list s r m serials hnd hne hI st hs h
+
+/-- **extrapolate over any list of distinct periods**: the recursion runs from the first listed period for `len(list)` steps
+and its `k`-th value is stored at the `k`-th listed period (for a span of consecutive periods this is `extrapolate_pointwise`);
+nothing else changes -/
+theorem extrapolate_pointwise_list (s r : Series) (coeffs : List Rat) (c : Rat) (a : Int) (rest : List Int)
+    (hnd : (a :: rest).Nodup) (hI : Inv s) (st : Int) (hs : s.start = some st)
+    (h : s.extrapolate coeffs c (a :: rest) = .ok r) :
+    (∀ t v, t ∉ a :: rest → r.abs t v = s.abs t v) ∧
+    (∀ (k : Nat) (t : Int) (v : Nat), (a :: rest)[k]? = some t → v < s.nv →
+      r.abs t v = ((arRun coeffs c (rest.length + 1) (lagsBefore s a coeffs.length v))[k]?).getD none) :=
+  abs_extrapolate_list s r coeffs c a rest hnd hI st hs h
+
+/-- the hypotheses are met by a backward stepped span resolved against the series' own ends: `Span(None, None, -2)` on a
+series of 5 periods is the list end, end-2, start — distinct periods, not consecutive, not ascending -/
+example : (⟨.Q, some 8080, 1, [[some 1], [none], [some 3], [none], [some 5]]⟩ : Series).resolveDates (.span none none (-2))
+    = .ok [⟨.Q, 8084⟩, ⟨.Q, 8082⟩, ⟨.Q, 8080⟩] ∧ ([8084, 8082, 8080] : List Int).Nodup := by decide
+
 /-! ## 5c. NaN rules of the statistics (what `StatFn.eval` in `stat_pointwise` does with missing cells) -/
 
 /-- the `nan*` statistics are the plain ones over the observed variants of the period -/
